@@ -225,5 +225,7 @@ def finish(ctx, meta):
     if broken:
         for b in broken:
             print("ANALYSIS-BROKEN: " + b)
-        return 2
+        # a violated obligation is a verdict even when, as a consequence of the same change, a rule also matched fewer
+        # instances than its floor; a floor failure alone is 'analysis broken'
+        return 1 if new else 2
     return 1 if new else 0
